@@ -168,7 +168,7 @@ Fixpoint issue_events (s : State) (c : CtxId) (rc : Ctx) (n i : Z) (provs : list
               :: issue_events s c rc n (i + 1) t
   end.
 
-Lemma fee_of_stable s s1 rc prov :
+Lemma fee_of_stable_pos s s1 rc prov :
   time s1 = time s -> pricing s1 = pricing s -> vols s1 = vols s ->
   fee_of s1 rc prov = fee_of s rc prov.
 Proof. intros H2 H3 H4. unfold fee_of, pricing_of, vol_of. now rewrite H2, H3, H4. Qed.
@@ -178,7 +178,7 @@ Lemma issue_events_stable s s1 c rc n i provs :
   issue_events s1 c rc n i provs = issue_events s c rc n i provs.
 Proof.
   intros H1 H2 H3 H4. revert i. induction provs as [|p t IH]; intros i; cbn [issue_events]; [reflexivity|].
-  now rewrite IH, H1, (fee_of_stable s s1) by assumption.
+  now rewrite IH, H1, (fee_of_stable_pos s s1) by assumption.
 Qed.
 
 Lemma issue_events_length s c rc n i provs : length (issue_events s c rc n i provs) = length provs.
@@ -232,7 +232,7 @@ Proof.
 Qed.
 
 (* the statement of the audit, (d)1 *)
-Lemma issue_all_log s c rc n i provs :
+Lemma issue_all_log_pos s c rc n i provs :
   log (issue_all s c rc n i provs) =
     rev (map (fun jp => EvIssue (c, n, height s, i + Z.of_nat (fst jp)) (snd jp) (c_cons rc)
                           (fee_of s rc (snd jp)))
@@ -321,7 +321,7 @@ Proof.
   - intros k p price Hk fee.
     assert (Hm : nth_error (map fst E) k = Some p) by (apply nth_error_map_fst; eauto).
     destruct (L3 k p Hm) as (L3a & _). split.
-    + rewrite L3a. do 2 f_equal. rewrite (fee_of_stable s sp) by assumption.
+    + rewrite L3a. do 2 f_equal. rewrite (fee_of_stable_pos s sp) by assumption.
       destruct (nth_filter_providers _ _ _ _ _ _ Hk) as (_ & Hel).
       exact (fee_of_eligible _ _ _ _ Hel).
     + exact (I1 k (p, price) Hk).
